@@ -44,26 +44,26 @@ Qed.
 Lemma bridge_early_return M p : (plen p - hsize p >=? M) = gen_c10_early_return (plen p) (hsize p) (gen_c10_miu_first M).
 Proof. reflexivity. Qed.
 
-Lemma bridge_agg_for thr M icv o r agf miu dn :
-  agg_for thr M icv (o :: r) agf miu dn =
-  (do x <- obj_dequeue thr miu icv o;
+Lemma bridge_agg_for c thr M icv o r agf miu dn :
+  agg_for c thr M icv (o :: r) agf miu dn =
+  (do x <- obj_dequeue thr miu (gen_c10_icv_agg icv) o;
    let '(o', y) := x in
    match y with
    | Some p =>
-       let agf' := agf ++ [p] in
+       let agf' := agf ++ [maybe_encrypt c p] in
        let miu' := gen_c10_budget2 M (agf_len agf') in
        if gen_c10_break_inner miu' then Ok (o' :: r, agf', miu', false)
-       else do z <- agg_for thr M icv r agf' miu' false; let '(r', a, m, d) := z in Ok (o' :: r', a, m, d)
-   | None => do z <- agg_for thr M icv r agf miu dn; let '(r', a, m, d) := z in Ok (o' :: r', a, m, d)
+       else do z <- agg_for c thr M icv r agf' miu' false; let '(r', a, m, d) := z in Ok (o' :: r', a, m, d)
+   | None => do z <- agg_for c thr M icv r agf miu dn; let '(r', a, m, d) := z in Ok (o' :: r', a, m, d)
    end).
 Proof. reflexivity. Qed.
 
-Lemma bridge_agg_loop f M icv l agf miu :
-  agg_loop (S f) fixed M icv l agf miu =
+Lemma bridge_agg_loop f c M icv l agf miu :
+  agg_loop (S f) c fixed M icv l agf miu =
   (if gen_c10_agf_enter miu then
-     do x <- agg_for (sd_thr fixed) M icv l agf miu true;
+     do x <- agg_for c (sd_thr fixed) M icv l agf miu true;
      let '(l', agf', miu', dn) := x in
-     if gen_c10_break_outer miu' dn then Ok (l', agf', miu') else agg_loop f fixed M icv l' agf' miu'
+     if gen_c10_break_outer miu' dn then Ok (l', agf', miu') else agg_loop f c fixed M icv l' agf' miu'
    else Ok (l, agf, miu)).
 Proof.
   cbn [agg_loop agf_guard fixed andb]. unfold gen_c10_agf_enter.
@@ -106,3 +106,32 @@ Lemma bridge_miux V :
   learn_miu (Some V) = gen_c10_connect_miu (miux_decode V) /\ learn_miu (Some V) = gen_c10_cc_miu (miux_decode V) /\
   learn_miu (Some V) = gen_c10_pax_miu (miux_decode V).
 Proof. repeat split; try reflexivity. unfold learn_miu, gen_c10_pax_miu. lia. Qed.
+
+(* ---- the ICV allowance: icv_size = self.sec.icv_size if self.sec else 0, the encryption tests, and what every
+        dequeue call site passes on as icv_size (first loop: 0; aggregation: icv_size; SAP -> socket -> TCO) ---- *)
+Definition sec_on (c : cfg) : bool := match sec c with Some _ => true | None => false end.
+Definition sec_icv (c : cfg) : Z := match sec c with Some k => icv_size k | None => 0 end.
+Lemma bridge_icv_size c : cfg_icv c = gen_c10_icv_size (sec_on c) (sec_icv c).
+Proof. unfold cfg_icv, sec_on, sec_icv, gen_c10_icv_size. destruct (sec c); reflexivity. Qed.
+Lemma bridge_encrypt c p :
+  maybe_encrypt c p =
+  (if gen_c10_encrypt_cond1 (sec_on c) (is_ui_i p)
+   then match sec c with Some k => mkPdu (pt p) (da p) (sa p) (ns p) (nr p) (encrypt k (enc_hdr p) (body p)) | None => p end
+   else p) /\ gen_c10_encrypt_cond2 (sec_on c) (is_ui_i p) = gen_c10_encrypt_cond1 (sec_on c) (is_ui_i p).
+Proof. unfold maybe_encrypt, sec_on, gen_c10_encrypt_cond1, gen_c10_encrypt_cond2. destruct (sec c); split; reflexivity. Qed.
+Lemma bridge_icv_sites c thr b miu icv o r a s l k :
+  first_pass c thr b miu (o :: r) =
+    (if Bool.eqb (skind_eqb (obj_mode o) Raw) b then
+       do x <- obj_dequeue thr miu (gen_c10_icv_first (cfg_icv c)) o;
+       let '(o', y) := x in
+       match y with
+       | Some p => Ok (o' :: r, Some (maybe_encrypt c p))
+       | None => do z <- first_pass c thr b miu r; let '(r', y') := z in Ok (o' :: r', y')
+       end
+     else do z <- first_pass c thr b miu r; let '(r', y') := z in Ok (o :: r', y')) /\
+  sap_dequeue miu icv a = sap_dequeue miu (gen_c10_icv_sap icv) a /\
+  socks_dequeue k miu icv l = socks_dequeue k miu (gen_c10_icv_sap icv) l /\
+  sock_dequeue Ldl miu icv s = (let '(q', x) := tco_dequeue (Some miu) (gen_c10_icv_ldl icv) (sq s) in (with_sq s q', x)) /\
+  sock_dequeue Raw miu icv s = (let '(q', x) := tco_dequeue None (gen_c10_icv_raw icv) (sq s) in (with_sq s q', x)) /\
+  sock_dequeue Dlc miu icv s = dlc_dequeue miu (gen_c10_icv_dlc icv) s.
+Proof. repeat split; reflexivity. Qed.
